@@ -326,6 +326,78 @@ def _declare_l():
     return SchemaInfo("L", [PdN], fields, {}, {0: lambda i, rt: PdN(i)}, targets)
 
 
+def _declare_v():
+    """schema L again, but over a class whose instances compare BY VALUE (`key`): several distinct objects are `==`
+    and hash alike. A list field stores them by position/identity, a set field keeps the first of several equal
+    ones (Python semantics), the symbol graph has one node - and so one relation - per OBJECT."""
+    from dataclasses import dataclass, field
+    from typing_extensions import List, Set
+    from krrood.entity_query_language.predicate import Symbol
+    from krrood.ontomatic.property_descriptor.mixins import HasInverseProperty
+    from krrood.ontomatic.property_descriptor.property_descriptor import PropertyDescriptor
+
+    g = sys.modules[__name__].__dict__
+
+    @dataclass(eq=True)
+    class PdV(Symbol):
+        key: int
+        idx: int = field(default=0, compare=False)
+        items: List[PdV] = field(default_factory=list, compare=False)
+        all_items: List[PdV] = field(default_factory=list, compare=False)
+        item_of: List[PdV] = field(default_factory=list, compare=False)
+        tags: Set[PdV] = field(default_factory=set, compare=False)
+        all_tags: Set[PdV] = field(default_factory=set, compare=False)
+        tag_of: Set[PdV] = field(default_factory=set, compare=False)
+
+        def __hash__(self):
+            return self.key
+
+    g.update(PdV=PdV)
+
+    @dataclass
+    class VAllItems(PropertyDescriptor, HasInverseProperty):
+        @classmethod
+        def get_inverse(cls):
+            return VItemOf
+
+    @dataclass
+    class VItemOf(PropertyDescriptor, HasInverseProperty):
+        @classmethod
+        def get_inverse(cls):
+            return VAllItems
+
+    @dataclass
+    class VItems(VAllItems): ...
+
+    @dataclass
+    class VAllTags(PropertyDescriptor, HasInverseProperty):
+        @classmethod
+        def get_inverse(cls):
+            return VTagOf
+
+    @dataclass
+    class VTagOf(PropertyDescriptor, HasInverseProperty):
+        @classmethod
+        def get_inverse(cls):
+            return VAllTags
+
+    @dataclass
+    class VTags(VAllTags): ...
+
+    PdV.items = VItems(PdV, "items")
+    PdV.all_items = VAllItems(PdV, "all_items")
+    PdV.item_of = VItemOf(PdV, "item_of")
+    PdV.tags = VTags(PdV, "tags")
+    PdV.all_tags = VAllTags(PdV, "all_tags")
+    PdV.tag_of = VTagOf(PdV, "tag_of")
+    fields = [(0, "items"), (0, "all_items"), (0, "item_of"), (0, "tags"), (0, "all_tags"), (0, "tag_of")]
+    targets = {i: [0] for i in range(6)}
+    info = SchemaInfo("V", [PdV], fields, {}, {}, targets)
+    info.case_keys = []
+    info.ctor[0] = lambda i, rt: PdV(info.case_keys[i] if i < len(info.case_keys) else 1000 + i, i)
+    return info
+
+
 def _declare_u():
     m = _load_university()
     classes = [m.Person, m.Company, m.CEO]
@@ -339,7 +411,7 @@ def _declare_u():
 def schema(tag: str) -> SchemaInfo:
     """declare (once per process) and describe a schema; needs krrood importable"""
     if tag not in _SCHEMAS:
-        _SCHEMAS[tag] = {"U": _declare_u, "D": _declare_d, "L": _declare_l}[tag]()
+        _SCHEMAS[tag] = {"U": _declare_u, "D": _declare_d, "L": _declare_l, "V": _declare_v}[tag]()
     return _SCHEMAS[tag]
 
 
@@ -508,6 +580,8 @@ def run_c16_line(line: str) -> str:
         f = int(field_of(items, "field")[0])
         name = info.fields[f][1]
         is_set = info.kinds[f] == "set"
+        if hasattr(info, "case_keys"):
+            info.case_keys = [int(k) for k in (field_of(items, "keys") or [])]
         if s[0] == "w2":
             return _run_two(info, sg, items, objs_spec, f, name, is_set)
         objs = build_world(info, objs_spec)
